@@ -1,6 +1,7 @@
 import RimeModel.Session.Commit
 import RimeModel.Session.InvProc
 import RimeModel.Session.PunctComposeOK
+import RimeModel.Session.RecogComposeOK
 import RimeModel.Session.Shape
 import RimeModel.Session.KeyBinderCommit
 /-!
@@ -87,6 +88,30 @@ theorem commit_clears_concrete (env : Env) (cfg : SegCfg) (henv : env.recompose 
 theorem commit_clears_punct (env : Env) (cfg : PSegCfg) (henv : env.recompose = composeP cfg) (c : Ctx)
     (hc : c.isComposing = true) : (apiStep env c .commitComposition).1.isComposing = false :=
   (commit_clears env (by rw [henv]; exact composeP_empty_spec cfg) c hc).1
+
+/-- (c) for schemas with the recognizer family (`composeR`: any list of ascii / matcher / abc / punct / affix / fallback
+segmentors, any pattern search functions, any affix configurations) -/
+theorem commit_clears_recognizer (env : Env) (cfg : RSegCfg) (henv : env.recompose = composeR cfg) (c : Ctx)
+    (hc : c.isComposing = true) : (apiStep env c .commitComposition).1.isComposing = false :=
+  (commit_clears env (by rw [henv]; exact composeR_empty_spec cfg) c hc).1
+
+/-- (a) on a schema with the recognizer family, through the top API layer (`apiStepK`: the environment of the current
+`full_shape`, the ascii composer's listener applied at the end): `commit_composition` on a composing state delivers
+exactly the formatted commit preview reported just before — the prefix and suffix segments the affix segmentor splits
+off are `phony` and contribute to neither — and nothing else -/
+theorem commit_eq_preview_recognizer (envOf : Bool → Env) (c : Ctx) (hc : c.isComposing = true) :
+    let env := envOf (c.getOption "full_shape")
+    (apiStepK envOf c .commitComposition).1.commitBuf = c.commitBuf ++ env.format (view env c).preview := by
+  show (acSettle (apiStep (envOf (c.getOption "full_shape")) c .commitComposition).1).commitBuf = _
+  rw [acSettle_commitBuf]
+  exact commit_eq_preview _ c hc
+
+/-- (d) a key the recognizer takes (a pattern matches the input plus the character) is added to the input and delivers
+nothing: the commit buffer is what it was, whatever the recomposition makes of the new input -/
+theorem recognizer_key_delivers_nothing (env : Env) (k : Key) (c : Ctx) :
+    (recognizerProcess env k c).1.commitBuf = c.commitBuf := by
+  unfold recognizerProcess
+  (repeat' split) <;> first | rfl | exact pushInput_commitBuf c _
 
 /-- (a) for the punctuator's own commit: a `{commit: x}` definition (Punctuator::AutoCommitPunct, run on the state
 the key press has just produced) delivers exactly the formatted preview of that state and nothing else -/
